@@ -299,6 +299,12 @@ func (it *Interp) methodValue(recv Value, fn *types.Func, pos token.Pos) Value {
 			return it.funcValue(m, recv, pos)
 		}
 	}
+	if _, isNil := recv.(NilVal); isNil {
+		// a method of a go/types or repository pointer type called on a nil pointer: the
+		// methods the generators use dereference their receiver
+		it.event("panic", pos, fmt.Sprintf("nil pointer dereference: method %s called on a nil %s", name, fn.Type().(*types.Signature).Recv().Type()))
+		panic(abortRun{"generator panic"})
+	}
 	it.unsupported(pos, "method %s on %T", name, recv)
 	return nil
 }
